@@ -36,12 +36,17 @@ None == [car |-> "none"]
 
 \* selector shapes for the probe element <font id="t" class="c">
 \*   0: *   1: font   2: .c   3: font.c   4: #t   5: #t.c   6: :is(font, #t)   7: :not(.zz)
+\*   8: font, #t   9: #zz, .c     (selector lists: the most specific MATCHING alternative counts)
 SpecOf(sh) == CASE sh = 0 -> <<0, 0, 0>> [] sh = 1 -> <<0, 0, 1>> [] sh = 2 -> <<0, 1, 0>> [] sh = 3 -> <<0, 1, 1>>
                 [] sh = 4 -> <<1, 0, 0>> [] sh = 5 -> <<1, 1, 0>> [] sh = 6 -> <<1, 0, 0>> [] sh = 7 -> <<0, 1, 0>>
-Shapes == 0..7
+                [] sh = 8 -> <<1, 0, 0>> [] sh = 9 -> <<0, 1, 0>>
+Shapes == 0..9
+\* number of equal-specificity rules of a "burst" sheet (three sizes, all beyond the small-slice threshold of sorts)
+BurstSize(car) == CASE car = "burst15" -> 15 [] car = "burst20" -> 20 [] car = "burst33" -> 33 [] OTHER -> 0
 
 SheetCarriers == {"ua", "user", "style", "link", "import", "import_late", "media_print", "media_screen", "nested", "nomatch"}
 Occ == {[car |-> c, imp |-> i, sh |-> s] : c \in {"user", "style", "link", "import", "media_print", "nested"}, i \in BOOLEAN, s \in Shapes}
+       \cup {[car |-> c, imp |-> i, sh |-> s] : c \in {"burst15", "burst20", "burst33"}, i \in BOOLEAN, s \in {1, 4}}
        \cup {[car |-> "ua", imp |-> FALSE, sh |-> s] : s \in Shapes}
        \cup {[car |-> c, imp |-> i, sh |-> 4] : c \in {"media_screen", "nomatch", "import_late"}, i \in BOOLEAN}
        \cup {[car |-> "attr", imp |-> i, sh |-> 0] : i \in BOOLEAN}
@@ -60,9 +65,13 @@ Lists == {q \in UNION {[1..m -> Occ] : m \in 0..MaxOcc} : WellFormed(q)}
 Cands(q) ==
   UNION {
     IF q[j].car = "nested"
-    THEN {[car |-> "style", imp |-> FALSE, sh |-> q[j].sh, pos |-> 2 * j, val |-> 100 + j],
-          [car |-> "nested", imp |-> q[j].imp, sh |-> q[j].sh, pos |-> 2 * j + 1, val |-> j]}
-    ELSE {[car |-> q[j].car, imp |-> q[j].imp, sh |-> q[j].sh, pos |-> 2 * j, val |-> j]}
+    THEN {[car |-> "style", imp |-> FALSE, sh |-> q[j].sh, pos |-> 64 * j, val |-> 100 + j],
+          [car |-> "nested", imp |-> q[j].imp, sh |-> q[j].sh, pos |-> 64 * j + 1, val |-> j]}
+    \* a "burst" is one <style> sheet with Burst rules of the same selector and importance, all declaring
+    \* the property; only the last one carries the occurrence's value
+    ELSE IF BurstSize(q[j].car) > 0
+    THEN {[car |-> "style", imp |-> q[j].imp, sh |-> q[j].sh, pos |-> 64 * j + b, val |-> IF b = BurstSize(q[j].car) THEN j ELSE 200 + b] : b \in 1..BurstSize(q[j].car)}
+    ELSE {[car |-> q[j].car, imp |-> q[j].imp, sh |-> q[j].sh, pos |-> 64 * j, val |-> j]}
     : j \in 1..Len(q)}
 
 Applies(d, h) == /\ d.car \notin {"nomatch", "media_screen", "import_late"}
@@ -74,7 +83,10 @@ OI(d) == CASE Origin(d) = "ua" -> 1
            [] Origin(d) = "author" /\ ~d.imp -> 3
            [] Origin(d) = "author" /\ d.imp -> 4
            [] OTHER -> 5
-CssSpec(d) == IF d.car \in {"hint", "attr"} THEN <<0, 0, 0>> ELSE SpecOf(d.sh)
+\* a nested `&` stands for :is(<parent selector list>): its specificity is that of the most specific
+\* alternative of the list, whether or not that alternative matches (shape 9: #zz, .c)
+NestedSpecOf(sh) == IF sh = 9 THEN <<1, 0, 0>> ELSE SpecOf(sh)
+CssSpec(d) == IF d.car \in {"hint", "attr"} THEN <<0, 0, 0>> ELSE IF d.car = "nested" THEN NestedSpecOf(d.sh) ELSE SpecOf(d.sh)
 \* presentational hints sit at the start of the author style sheet
 CssPos(d) == IF d.car = "hint" THEN 0 ELSE d.pos
 Rank(d) == <<OI(d), IF d.car = "attr" THEN 1 ELSE 0, CssSpec(d)[1], CssSpec(d)[2], CssSpec(d)[3], CssPos(d)>>
@@ -87,7 +99,8 @@ Winner(q, h) == IF Applicable(q, h) = {} THEN None
 
 ---------------------------------------------------------------------------
 (* Implementation-shaped insertion (html/tree/style.go newStyleFor) *)
-ImplSpec(d) == CASE d.car = "attr" -> <<StyleAttrSpec, 0, 0>> [] d.car = "hint" -> <<0, 0, 0>> [] OTHER -> SpecOf(d.sh)
+ImplSpec(d) == CASE d.car = "attr" -> <<StyleAttrSpec, 0, 0>> [] d.car = "hint" -> <<0, 0, 0>>
+                 [] d.car = "nested" -> NestedSpecOf(d.sh) [] OTHER -> SpecOf(d.sh)
 Weight(d) == <<OI(d), ImplSpec(d)[1], ImplSpec(d)[2], ImplSpec(d)[3]>>
 Leq(u, v) == u = v \/ LexLess(u, v)
 
